@@ -419,7 +419,9 @@ func (ex *Exec) applyContract(fr *Frame, c *FuncContract, callee *ssa.Function, 
 			ex.checkImplements(fr, r, args, pnames, st)
 			continue
 		}
+		env.goal = true
 		g := env.Bool(r.Expr)
+		env.goal = false
 		if len(env.errs) > 0 {
 			vc.fatalf("contract of %s, requires %q: %s", c.Name, r.Text, strings.Join(env.errs, "; "))
 			return
